@@ -259,6 +259,38 @@ def gen():
                   }}
                   """, ["impl_simd_array_conversion! / impl_simd_array_conversion_hue! (macros/simd.rs)", "From<[Alpha<C, T>; N]> for Alpha<C, V>"],
                   f"all {S} bit patterns, {N} colours", thorough=th, unwind=un)
+        o.harness(f"c17_{V}_pack_unpack_prealpha",
+                  f"array of scalar premultiplied colours <-> one SIMD premultiplied colour ({V}): packing PreAlpha<LinSrgb> copies colour and alpha "
+                  f"lanes bit for bit (no unpremultiply / premultiply detour: zero alpha keeps its colour, no lane is re-rounded), and unpacking "
+                  f"returns the colours bit for bit",
+                  f"""
+                  let r: [{S}; {N}] = kani::any();
+                  let g: [{S}; {N}] = kani::any();
+                  let b: [{S}; {N}] = kani::any();
+                  let al: [{S}; {N}] = kani::any();
+                  kani::cover!(true);
+                  let mut ps = [palette::blend::PreAlpha::<palette::LinSrgb<{S}>> {{ color: palette::LinSrgb::new(0.0, 0.0, 0.0), alpha: 0.0 }}; {N}];
+                  let mut k = 0;
+                  while k < {N} {{
+                      ps[k] = palette::blend::PreAlpha {{ color: palette::LinSrgb::new(r[k], g[k], b[k]), alpha: al[k] }};
+                      k += 1;
+                  }}
+                  let p = palette::blend::PreAlpha::<palette::LinSrgb<{V}>>::from(ps);
+                  let (pr, pg, pb, pa) = (p.color.red.to_array(), p.color.green.to_array(), p.color.blue.to_array(), p.alpha.to_array());
+                  let mut k = 0;
+                  while k < {N} {{
+                      assert!(pr[k].to_bits() == r[k].to_bits() && pg[k].to_bits() == g[k].to_bits() && pb[k].to_bits() == b[k].to_bits() && pa[k].to_bits() == al[k].to_bits());
+                      k += 1;
+                  }}
+                  let back: [palette::blend::PreAlpha<palette::LinSrgb<{S}>>; {N}] = p.into();
+                  let mut k = 0;
+                  while k < {N} {{
+                      assert!(back[k].color.red.to_bits() == r[k].to_bits() && back[k].color.green.to_bits() == g[k].to_bits()
+                          && back[k].color.blue.to_bits() == b[k].to_bits() && back[k].alpha.to_bits() == al[k].to_bits());
+                      k += 1;
+                  }}
+                  """, ["From<[PreAlpha<C<T>>; N]> for PreAlpha<C<V>> / From<PreAlpha<C<V>>> for [PreAlpha<C<T>>; N] (impl_simd_array_conversion!, macros/simd.rs)"],
+                  f"all {S} bit patterns, {N} colours", thorough=th, unwind=un)
         # bounds and clamp of SIMD colours
         o.harness(f"c17_{V}_color_bounds_and_clamp_lanes",
                   f"SIMD colours ({V}): is_within_bounds marks exactly the lanes whose scalar colour is within bounds, clamp equals the scalar clamp lane "
